@@ -131,7 +131,8 @@ def run_case(ctx, k, rng):
     s0 = float(bars[:, 0].min()) if start is None else start
     s1 = float(bars[:, 1].max()) if stop is None else stop
     nodes, step = np.linspace(s0, s1, num, retstep=True)
-    want = OL.lam_all(bars, nodes)
+    bars0 = bars.copy()         # every reference value comes from this pristine copy; `bars` itself is handed to one call after another
+    want = OL.lam_all(bars0, nodes)
     n = len(bars)
     offgrid = np.min(np.abs(bars.ravel()[:, None] - nodes[None, :]), axis=1) > tol
     if n >= 2 and offgrid.any() and num >= 5:
@@ -210,7 +211,7 @@ def run_case(ctx, k, rng):
             ok = v.shape == exp.shape and np.all(np.abs(v - exp) <= tol)
             ctx.check("vectorize(exact) == interpolated critical pairs at the nodes", ok, shape=v.shape, expected_shape=exp.shape)
             if not fired:
-                w2 = OL.lam_all(bars, nodes_v)
+                w2 = OL.lam_all(bars0, nodes_v)
                 full = np.zeros((n, num)); full[:min(len(v), n)] = v[:n]
                 ctx.check("vectorize(exact) == definition at the nodes", np.all(np.abs(full - w2) <= tol) and len(v) <= n,
                           worst=float(np.abs(full - w2).max()))
@@ -237,7 +238,7 @@ def run_case(ctx, k, rng):
                 ctx.check("transformer == PersLandscapeApprox values", np.array_equal(out, ref) and np.array_equal(out2, out),
                           out_shape=np.shape(out), ref_shape=np.shape(ref))
             if start is None:
-                ctx.check("fit learns [min birth, max death]", T.start == bars[:, 0].min() and T.stop == bars[:, 1].max(),
+                ctx.check("fit learns [min birth, max death]", T.start == bars0[:, 0].min() and T.stop == bars0[:, 1].max(),
                           start=T.start, stop=T.stop)
         except Exception as e:
             ctx.exception("transformer returns", e)
@@ -246,7 +247,7 @@ def run_case(ctx, k, rng):
         try:
             ctx.ran()
             dv = list(death_vector([bars] + dgms[1:], 0))
-            ok = all(dv[i] >= dv[i + 1] for i in range(len(dv) - 1)) and sorted(dv) == sorted(bars[:, 1].tolist())
+            ok = all(dv[i] >= dv[i + 1] for i in range(len(dv) - 1)) and sorted(dv) == sorted(bars0[:, 1].tolist())
             ctx.check("death vector non-increasing permutation of deaths", ok, got=dv)
         except Exception as e:
             ctx.exception("death vector returns", e)
